@@ -359,7 +359,7 @@ def outsxr_instance(Ks, Kt, T, variant='value', return_dict=False, perm=None):
 
 
 # ----------------------------------------------------------------------------- set_snr / get_snr
-def snr_instance(shape, axis=None):
+def snr_instance(shape, axis=None, given_current=False):
     from pb_bss.evaluation import sxr_module as sx
     shape = tuple(shape)
 
@@ -381,10 +381,14 @@ def snr_instance(shape, axis=None):
         return {'X': X, 'N': N, 'snr': snr}
 
     def call(inp):
+        kw = {}
+        if given_current:
+            # the caller hands over the SNR it measured before (the documented use of `current_snr`)
+            kw['current_snr'] = sx.get_snr(inp['X'], inp['N'], axis=axis, keepdims=True) if axis is not None else sx.get_snr(inp['X'], inp['N'])
         if axis is None:
-            X2, N2 = sx.set_snr(inp['X'], inp['N'], inp['snr'], inplace=False)
+            X2, N2 = sx.set_snr(inp['X'], inp['N'], inp['snr'], inplace=False, **kw)
             return {'X2': X2, 'N2': N2, 'snr2': sx.get_snr(X2, N2)}
-        X2, N2 = sx.set_snr(inp['X'], inp['N'], inp['snr'], axis=axis, inplace=False)
+        X2, N2 = sx.set_snr(inp['X'], inp['N'], inp['snr'], axis=axis, inplace=False, **kw)
         return {'X2': X2, 'N2': N2, 'snr2': sx.get_snr(X2, N2, axis=axis)}
 
     def ensures(sp, inp, out):
@@ -421,7 +425,8 @@ def snr_instance(shape, axis=None):
                     hs.append(E.implies(guard, E.cmp('==', va, E.add(vb, E.mul(E.const(2), lf.term())))))
         return hs
 
-    return Instance('C19', F_SNR, 'shape%s%s' % ('x'.join(map(str, shape)), '' if axis is None else '-axis%s' % str(axis).replace(' ', '')), make, call, ensures, hints=hints, timeout=30.0,
+    return Instance('C19', F_SNR, 'shape%s%s%s' % ('x'.join(map(str, shape)), '' if axis is None else '-axis%s' % str(axis).replace(' ', ''),
+                                                   '-current-snr-given' if given_current else ''), make, call, ensures, hints=hints, timeout=30.0,
                     scales=SCALES)
 
 
@@ -466,4 +471,6 @@ def instances(tier):
     for ax in (0, -1, 1, (0,), (0, 1)):
         out.append(snr_instance((2, 2), axis=ax))
     out.append(snr_instance((2, 1, 2), axis=0))
+    out.append(snr_instance((3,), given_current=True))
+    out.append(snr_instance((2, 2), axis=-1, given_current=True))
     return out
